@@ -320,8 +320,14 @@ def do_replay(mod, path, quiet_out=False):
             print(json.dumps(same[0]['detail'], indent=1)[:3000])
         return 1
     if hit:
-        print("REPLAY-DIFFERENT property=%s sig=%s obs=%s (recorded %s)" % (mod.ID, body['sig'], hit[0]['obs'], body['obs']))
-        return 3
+        # the same check fails at the same place with other numbers: still a reproduced violation (this happens when
+        # the implementation keeps process-level state, so that what a case observes depends on the cases the worker
+        # ran before it); reported as such
+        print("REPLAY-VIOLATION property=%s sig=%s obs=%s (recorded obs %s: same failure, different observation -- the "
+              "implementation's behaviour depends on what the process did before)" % (mod.ID, body['sig'], hit[0]['obs'], body['obs']))
+        if not quiet_out:
+            print(json.dumps(hit[0]['detail'], indent=1)[:3000])
+        return 1
     print("REPLAY-PASS property=%s (the recorded violation does not occur on this tree)" % mod.ID)
     return 0
 
